@@ -160,6 +160,17 @@ def audit(pid):
     return files, hits
 
 
+def coqchk(pid, timeout=5400):
+    """independent re-check of Properties/<pid>.vo and everything it depends on (thorough tier)"""
+    t0 = time.time()
+    rc, out = sh(["coqchk", "-silent", "-o", "-Q", "theories", "Verif", "Verif.Properties." + pid], cwd=COQ, timeout=timeout)
+    axioms = []
+    m = re.search(r"\* Axioms:(.*?)\n\s*\n\* ", out, re.S)
+    if m:
+        axioms = [x.strip() for x in m.group(1).strip().split("\n") if x.strip() and x.strip() != "<none>"]
+    return {"ok": rc == 0, "axioms": axioms, "wall_s": round(time.time() - t0, 1), "tail": out[-1500:]}
+
+
 # ------------------------------------------------------------------ Go harness
 
 def go_build(pkg, out, race=False, timeout=1200):
@@ -370,6 +381,13 @@ def run_check(spec, tier, replay=None):
         proofs_ok = False
         coverage["discharged"] = 0
         props["log"] = "forbidden constructs (Admitted/Axiom/...):\n" + "\n".join(hits)
+    if tier == "thorough" and proofs_ok and not spec.get("skip_coqchk"):
+        chk = coqchk(pid)
+        coverage["coqchk"] = {"ok": chk["ok"], "axioms": chk["axioms"], "wall_s": chk["wall_s"]}
+        if not chk["ok"]:
+            proofs_ok = False
+            coverage["discharged"] = 0
+            props["log"] = "coqchk failed:\n" + chk["tail"]
     proof_break = None
     if not proofs_ok:
         proof_break = {"broken": "Coq build / theorems of Properties/%s.v no longer check" % pid,
